@@ -85,6 +85,155 @@ def worldCP (s1 : Shape3 Float) (p1 : Iso3 Float) (s2 : Shape3 Float) (p2 : Iso3
   | some (some _) =>
     fcp (some (queryClosestPoints (fun m => ((detailsClosestPoints s1 s2 m margin).getD none).getD .disjoint) p1 p2))
 
+/-! ### oracle-only dispatcher runs: A = (1,2), B = (2,1), C = (g·1, g·2) -/
+def splitSemi (toks : List String) : List (List String) :=
+  let rec go (acc cur : List String) (rest : List String) (out : List (List String)) : List (List String) :=
+    match rest with
+    | [] => (out ++ [cur.reverse])
+    | t :: ts => if t = ";" then go acc [] ts (out ++ [cur.reverse]) else go acc (t :: cur) ts out
+  go [] [] toks []
+
+def wsize : WShape → Rat
+  | .ball r => rabs (q r)
+  | .cuboid h => vmag (q3 h)
+  | .halfspace _ => 0
+  | .capsule a b r => vmag (q3 a) + vmag (q3 b) + rabs (q r)
+  | .triangle a b c => vmag (q3 a) + vmag (q3 b) + vmag (q3 c)
+  | .segment a b => vmag (q3 a) + vmag (q3 b)
+def wkind : WShape → String
+  | .ball _ => "ball" | .cuboid _ => "cuboid" | .halfspace _ => "halfspace"
+  | .capsule .. => "capsule" | .triangle .. => "triangle" | .segment .. => "segment"
+
+structure OCtx where
+  /-- magnitude of the poses (rounding of world coordinates) -/
+  S : Rat
+  /-- size of the two shapes -/
+  sz : Rat
+  ball : Bool
+  G : Iso3 Rat
+  pair : String
+  concentric : Bool
+
+def OCtx.tag (c : OCtx) : String := s!"pair={c.pair}" ++ (if c.concentric then " concentric" else "")
+/-- scalars: 1e-6 relative to the values and the size of the shapes -/
+def OCtx.scal (c : OCtx) (a b : Rat) : Bool := rabs (a - b) ≤ (1 / 1000000) * (1 + rabs a + rabs b + c.sz) + tol * c.S
+/-- witnesses: GJK stops at a relative gap of 4.7e-8 on the distance, which bounds the witness direction only to
+about `sqrt(2·4.7e-8) ≈ 3e-4` rad; tolerance `2e-3 · (size + |dist|)` plus rounding of world coordinates. -/
+def OCtx.wit (c : OCtx) (a b : V3 Rat) (d : Rat) : Bool :=
+  let t := (2 / 1000) * (c.sz + rabs d) + (1 / 1000000) * (1 + c.S)
+  rabs (a.x - b.x) ≤ t && rabs (a.y - b.y) ≤ t && rabs (a.z - b.z) ≤ t
+
+def pOArgs (withPar : Bool) : P (WShape × Iso3 Float × WShape × Iso3 Float × Iso3 Float × Float) := do
+  let a ← pshape; let m1 ← piso3; let b ← pshape; let m2 ← piso3; let g ← piso3
+  let p ← if withPar then pf else pure 0.0
+  pure (a, m1, b, m2, g, p)
+def mkCtx (a : WShape) (m1 : Iso3 Float) (b : WShape) (m2 : Iso3 Float) (g : Iso3 Float) : OCtx :=
+  let G := qiso3 g
+  { S := vmag (q3 m1.t) + vmag (q3 m2.t) + vmag G.t + (vmag (q3 m1.t) + vmag (q3 m2.t)), sz := wsize a + wsize b,
+    ball := a.isBall || b.isBall, G := G, pair := s!"{wkind a}/{wkind b}",
+    concentric := (q m1.t.x == q m2.t.x) && (q m1.t.y == q m2.t.y) && (q m1.t.z == q m2.t.z) }
+
+/-- compare two world-frame contacts that should describe the same configuration (`b` already in `a`'s convention) -/
+def cmpContact (c : OCtx) (what : String) (pred : Rat) (a b : Option (Contact3 Rat)) : Option String :=
+  match a, b with
+  | none, none => none
+  | some x, none | none, some x =>
+    if c.scal x.dist pred then none else some s!"{what}-none-vs-some {c.tag} dist={x.dist.toF} prediction={pred.toF}"
+  | some x, some y =>
+    if !c.scal x.dist y.dist then
+      some s!"{what}-dist {c.tag}{if x.dist ≤ 0 && y.dist ≤ 0 then " penetrating" else ""} a={x.dist.toF} b={y.dist.toF}"
+    else if x.dist ≤ 0 || y.dist ≤ 0 then none   -- penetration: normal/witnesses may tie; the depth is the invariant
+    else if !c.wit (x.point2.sub x.point1) (y.point2.sub y.point1) x.dist then some s!"{what}-separation-vector {c.tag}"
+    else if c.ball && !(c.wit x.point1 y.point1 x.dist && c.wit x.point2 y.point2 x.dist) then some s!"{what}-witnesses {c.tag}"
+    else none
+
+def cmpCP (c : OCtx) (what : String) (margin dist : Rat) (a b : ClosestPoints3 Rat) : Option String :=
+  let nearBoundary := c.scal dist 0 || c.scal dist margin
+  match a, b with
+  | .intersecting, .intersecting => none
+  | .disjoint, .disjoint => none
+  | .withinMargin p1 p2, .withinMargin r1 r2 =>
+    if !c.wit (p2.sub p1) (r2.sub r1) dist then some s!"{what}-separation-vector {c.tag}"
+    else if c.ball && !(c.wit p1 r1 dist && c.wit p2 r2 dist) then some s!"{what}-witnesses {c.tag}"
+    else none
+  | _, _ => if nearBoundary then none else some s!"{what}-variant {c.tag} dist={dist.toF} margin={margin.toF}"
+
+def contactMapG (G : Iso3 Rat) (c : Contact3 Rat) : Contact3 Rat := c.transformBy G G
+
+def firstSome (xs : List (Option String)) : String :=
+  match xs.filterMap id with
+  | [] => "pass"
+  | m :: _ => "fail " ++ m
+
+def unsupported (xs : List String) : Bool := xs = ["unsupported"]
+
+def oracleO (fn : String) (args out : List String) : String :=
+  let withPar := fn = "o_contact" || fn = "o_cp"
+  match run (pOArgs withPar) args with
+  | none => "skip bad-args"
+  | some (a, m1, b, m2, g, par) =>
+    match out with
+    | "panic" :: _ => "fail panic"
+    | _ =>
+    match splitSemi out with
+    | [A, B, C, aux] =>
+      let c := mkCtx a m1 b m2 g
+      if !(unitQ (qiso3 m1) && unitQ (qiso3 m2) && unitQ c.G) then "skip non-unit-rotation" else
+      if unsupported A && unsupported B && unsupported C then "skip unsupported-pair" else
+      if unsupported A || unsupported B || unsupported C then s!"fail support-differs-between-orders {c.tag}" else
+      match run (do let d ← pfo; let e ← pfo; pure (d, e)) aux with
+      | none => "fail unparsable-output"
+      | some (dist, depth) =>
+        let D := q dist
+        match fn with
+        | "o_distance" =>
+          match run pfo A, run pfo B, run pfo C with
+          | some x, some y, some z =>
+            if !(FloatIO.isFinite x && FloatIO.isFinite y && FloatIO.isFinite z) then "fail nonfinite-output" else
+            firstSome [if c.scal (q x) (q y) then none else some s!"swap-distance {c.tag} a={x} b={y}",
+                       if c.scal (q x) (q z) then none else some s!"frame-distance {c.tag} a={x} c={z}"]
+          | _, _, _ => "fail unparsable-output"
+        | "o_it" =>
+          match run pbool A, run pbool B, run pbool C with
+          | some x, some y, some z =>
+            if x == y && x == z then "pass"
+            else
+              let t : Rat := (1 / 1000000) * (1 + c.sz) + tol * c.S
+              let touching := FloatIO.isFinite dist && D ≤ t && !(FloatIO.isFinite depth && q depth < -t)
+              if touching then "pass" else s!"fail verdict-differs {c.tag} a={x} b={y} c={z} dist={dist}"
+          | _, _, _ => "fail unparsable-output"
+        | "o_contact" =>
+          match run pcontactOut A, run pcontactOut B, run pcontactOut C with
+          | some x, some y, some z =>
+            if !(x.all finiteContact && y.all finiteContact && z.all finiteContact) then "fail nonfinite-output" else
+            let X := x.map qcontact; let Y := y.map qcontact; let Z := z.map qcontact
+            firstSome [cmpContact c "swap" (q par) X (Y.map Contact3.flipped),
+                       cmpContact c "frame" (q par) (X.map (contactMapG c.G)) Z]
+          | _, _, _ => "fail unparsable-output"
+        | _ =>
+          match run pcpOut A, run pcpOut B, run pcpOut C with
+          | some (some x), some (some y), some (some z) =>
+            if !(finiteCP x && finiteCP y && finiteCP z) then "fail nonfinite-output" else
+            if !FloatIO.isFinite dist then "skip no-distance" else
+            firstSome [cmpCP c "swap" (q par) D (qcp x) (qcp y).flipped,
+                       cmpCP c "frame" (q par) D ((qcp x).transformBy c.G c.G) (qcp z)]
+          | _, _, _ => "fail unparsable-output-or-panic"
+    | _ => "fail unparsable-output"
+
+def oHandler (fn : String) : Handler :=
+  { model := fun _ => some "oracle-only", oracle := fun a o => oracleO fn a o }
+
+/-! ### tabulated canonical sibling for the higher-order wrappers -/
+def pcanonContact : P (Option (Contact3 Float)) := do
+  let t ← tok
+  if t = "none" then pure none else if t = "some" then (do let c ← pcontactIn; pure (some c)) else failure
+def sameIso (a b : Iso3 Float) : Bool := fiso3 a = fiso3 b
+def pBallCub : P (Float × Shape3 Float × Iso3 Float) := do
+  let r ← pf; let s ← pshape; let m ← piso3
+  match s.closed with
+  | some c => pure (r, c, m)
+  | none => failure
+
 def handler (fn : String) : Option Handler :=
   match fn with
   /- ---------------- isometry group glue ---------------- -/
@@ -213,6 +362,139 @@ def handler (fn : String) : Option Handler :=
             if !(r.all finiteCP) then "fail nonfinite-output" else
             judgeCP (worldPair s1 p1 s2 p2) (q p) (r.map qcp)
         | none => "skip bad-args" }
+  /- ---------------- result helpers ---------------- -/
+  | "contact_flipped" => some {
+      model := fun a => run (do let c ← pcontactIn; pure (fcontact (some c.flipped))) a
+      oracle := fun a o => match run pcontactIn a with
+        | some c => withOut pcontactOut o fun r => match r with
+          | none => "fail none"
+          | some r =>
+            if fv3 r.point1 = fv3 c.point2 && fv3 r.point2 = fv3 c.point1 && fv3 r.normal1 = fv3 c.normal2 &&
+               fv3 r.normal2 = fv3 c.normal1 && ff r.dist = ff c.dist then "pass" else "fail not-the-swapped-record"
+        | none => "skip bad-args" }
+  | "contact_transform_by" => some {
+      model := fun a => run (do let c ← pcontactIn; let p1 ← piso3; let p2 ← piso3
+                                pure (fcontact (some (c.transformBy p1 p2)))) a
+      oracle := fun a o => match run (do let c ← pcontactIn; let p1 ← piso3; let p2 ← piso3; pure (c, p1, p2)) a with
+        | some (c, p1, p2) => withOut pcontactOut o fun r => match r with
+          | none => "fail none"
+          | some r =>
+            if !finiteContact r then "fail nonfinite-output" else
+            let P1 := qiso3 p1; let P2 := qiso3 p2; let C := qcontact c; let R := qcontact r
+            if !(unitQ P1 && unitQ P2) then "skip non-unit-rotation" else
+            let sc := vmag P1.t + vmag P2.t + vmag C.point1 + vmag C.point2
+            if ff r.dist = ff c.dist && closeV (P1.invAct R.point1) C.point1 sc && closeV (P2.invAct R.point2) C.point2 sc &&
+               closeV (P1.invRot R.normal1) C.normal1 1 && closeV (P2.invRot R.normal2) C.normal2 1
+            then "pass" else "fail not-the-transformed-record"
+        | none => "skip bad-args" }
+  | "cp_flipped" => some {
+      model := fun a => run (do let c ← pcpIn; pure (fcp (some c.flipped))) a
+      oracle := fun a o => match run pcpIn a with
+        | some c => withOut pcpOut o fun r => match c, r with
+          | .intersecting, some .intersecting => "pass"
+          | .disjoint, some .disjoint => "pass"
+          | .withinMargin x y, some (.withinMargin u v) =>
+            if fv3 u = fv3 y && fv3 v = fv3 x then "pass" else "fail not-the-swapped-points"
+          | _, _ => "fail variant-changed"
+        | none => "skip bad-args" }
+  | "cp_transform_by" => some {
+      model := fun a => run (do let c ← pcpIn; let p1 ← piso3; let p2 ← piso3; pure (fcp (some (c.transformBy p1 p2)))) a
+      oracle := fun a o => match run (do let c ← pcpIn; let p1 ← piso3; let p2 ← piso3; pure (c, p1, p2)) a with
+        | some (c, p1, p2) => withOut pcpOut o fun r => match c, r with
+          | .intersecting, some .intersecting => "pass"
+          | .disjoint, some .disjoint => "pass"
+          | .withinMargin x y, some (.withinMargin u v) =>
+            let P1 := qiso3 p1; let P2 := qiso3 p2
+            if !(unitQ P1 && unitQ P2) then "skip non-unit-rotation" else
+            if !(finite3 u && finite3 v) then "fail nonfinite-output" else
+            let sc := vmag P1.t + vmag P2.t + vmag (q3 x) + vmag (q3 y)
+            if closeV (P1.invAct (q3 u)) (q3 x) sc && closeV (P2.invAct (q3 v)) (q3 y) sc then "pass"
+            else "fail not-the-transformed-points"
+          | _, _ => "fail variant-changed"
+        | none => "skip bad-args" }
+  | "hit_swapped" => some {
+      model := fun a => run (do let t ← pf; let w1 ← pv3; let w2 ← pv3; let n1 ← pv3; let n2 ← pv3; let st ← pnat
+                                pure (fhit (ShapeCastHit3.swapped ⟨t, w1, w2, n1, n2, st⟩))) a
+      oracle := fun a o => match run (do let t ← pf; let w1 ← pv3; let w2 ← pv3; let n1 ← pv3; let n2 ← pv3; let st ← pnat
+                                         pure (t, w1, w2, n1, n2, st)) a with
+        | some (t, w1, w2, n1, n2, st) =>
+          withOut (do let t' ← pfo; let a ← pov3; let b ← pov3; let c ← pov3; let d ← pov3; let s ← pnat; pure (t', a, b, c, d, s)) o
+            fun (t', a, b, c, d, s) =>
+              if ff t' = ff t && fv3 a = fv3 w2 && fv3 b = fv3 w1 && fv3 c = fv3 n2 && fv3 d = fv3 n1 && s = st then "pass"
+              else "fail not-the-swapped-hit"
+        | none => "skip bad-args" }
+  /- ---------------- support maps of ball and cuboid ---------------- -/
+  | "support_toward" | "support" => some {
+      model := fun a => run (do let s ← pshape; let m ← piso3; let d ← pv3
+                                match s.closed.bind Shape3.supportMap with
+                                | some S => pure (fv3 (if fn = "support" then S.support m d else S.supportToward m d))
+                                | none => failure) a
+      oracle := fun a o => match run (do let s ← pshape; let m ← piso3; let d ← pv3; pure (s, m, d)) a with
+        | some (s, m, d) => withOut pov3 o fun r =>
+            if !finite3 r then "fail nonfinite-output" else
+            let M := qiso3 m; let D := q3 d; let R := q3 r
+            if !unitQ M then "skip non-unit-rotation" else
+            if fn = "support_toward" && !unitV D then "skip non-unit-direction" else
+            match s.closed.map qshape with
+            | some (.cuboid he) =>
+              let best := ((cuboidCorners he).map fun c => D.dot (M.act c)).foldl max (D.dot (M.act ⟨he.x, he.y, he.z⟩))
+              let sc := vmag M.t + vmag he
+              if !memW (.cuboid he) M R (tol * (1 + sc)) then "fail support-point-outside-cuboid"
+              else if close (D.dot R) best (vmag D * sc) then "pass" else "fail not-a-maximiser"
+            | some (.ball rad) =>
+              let v := R.sub M.t
+              let sc := vmag M.t + rad
+              -- v = rad · D/|D|  ⇔  v·D ≥ 0, (v·D)² = rad²|D|², |v|² = rad²
+              if !close v.normSq (rad * rad) (sc * sc) then "fail support-point-not-on-sphere"
+              else if v.dot D < 0 then "fail wrong-side"
+              else if close ((v.dot D) * (v.dot D)) (rad * rad * D.normSq) (sc * sc * D.normSq) then "pass" else "fail not-a-maximiser"
+            | _ => "skip bad-shape"
+        | none => "skip bad-args" }
+  /- ---------------- mirrored wrappers over the tabulated canonical sibling (ball vs cuboid) ---------------- -/
+  | "w_contact_ball_cp" => some {
+      model := fun a => run (do let (_, _, m) ← pBallCub; let _ ← pf; let pinv ← piso3; let canon ← pcanonContact
+                                if !sameIso m.inverse pinv then pure "inverse-mismatch"
+                                else pure (fcontact (contactBallCP (fun _ => canon) m))) a
+      oracle := fun a o => match run (do let x ← pBallCub; let p ← pf; pure (x, p)) a with
+        | some ((r, s, m), p) => withOut pcontactOut o fun out =>
+            if !(out.all finiteContact) then "fail nonfinite-output" else
+            judgeContact (localPair (.ball r) s m) (q p) (out.map fun c => contactToFrame1 (qcontact c) (qiso3 m))
+        | none => "skip bad-args" }
+  | "w_cp_ball_cp" => some {
+      model := fun a => run (do let (_, _, m) ← pBallCub; let _ ← pf; let pinv ← piso3; let canon ← pcanonContact
+                                if !sameIso m.inverse pinv then pure "inverse-mismatch"
+                                else pure (fcp (some (closestPointsBallCP (fun _ => canon) m)))) a
+      oracle := fun a o => match run (do let x ← pBallCub; let p ← pf; pure (x, p)) a with
+        | some ((r, s, m), p) => withOut pcpOut o fun out =>
+            if !(out.all finiteCP) then "fail nonfinite-output" else
+            if q p < 0 then "skip negative-margin" else
+            judgeCP (localPair (.ball r) s m) (q p) (out.map fun c => cpToFrame1 (qcp c) (qiso3 m))
+        | none => "skip bad-args" }
+  | "w_cp_cp_ball" => some {
+      model := fun a => run (do let (_, _, m) ← pBallCub; let _ ← pf; let canon ← pcanonContact
+                                pure (fcp (some (closestPointsCPBall (fun _ => canon) m)))) a
+      oracle := fun a o => match run (do let x ← pBallCub; let p ← pf; pure (x, p)) a with
+        | some ((r, s, m), p) => withOut pcpOut o fun out =>
+            if !(out.all finiteCP) then "fail nonfinite-output" else
+            if q p < 0 then "skip negative-margin" else
+            judgeCP (localPair s (.ball r) m) (q p) (out.map fun c => cpToFrame1 (qcp c) (qiso3 m))
+        | none => "skip bad-args" }
+  | "w_distance_ball_cp" => some {
+      model := fun a => run (do let (_, _, m) ← pBallCub; let pinv ← piso3; let cd ← pf
+                                if !sameIso m.inverse pinv then pure "inverse-mismatch"
+                                else pure (ff (distanceBallCP (fun _ => cd) m))) a
+      oracle := fun a o => match run pBallCub a with
+        | some (r, s, m) => withOut pfo o fun out =>
+            if !FloatIO.isFinite out then "fail nonfinite-output" else judgeDistance (localPair (.ball r) s m) (q out)
+        | none => "skip bad-args" }
+  | "w_it_ball_pq" => some {
+      model := fun a => run (do let (_, _, m) ← pBallCub; let pinv ← piso3; let ci ← pbool
+                                if !sameIso m.inverse pinv then pure "inverse-mismatch"
+                                else pure (fb (intersectionTestBallPQ (fun _ => ci) m))) a
+      oracle := fun a o => match run pBallCub a with
+        | some (r, s, m) => withOut pbool o fun out => judgeIT (localPair (.ball r) s m) out
+        | none => "skip bad-args" }
+  | "o_contact" | "o_distance" | "o_it" | "o_cp" => some (oHandler fn)
   | _ => none
 
 end C03
